@@ -47,8 +47,43 @@ def budget(tier):
 OPS = ["iterate", "iterate", "iterate", "blocks", "edges", "prior", "rescale_factors"]
 
 
+def big_star(n, counts, span):
+    """one polytomy with n leaves (a node that receives n messages per pass): with a shape cap close
+    to 1 its scale underflows within ONE pass, which is the only way to reach the mid-loop
+    _rescale_factors() call in propagate_likelihood"""
+    t = tskit.TableCollection(sequence_length=span)
+    for _ in range(n):
+        t.nodes.add_row(flags=tskit.NODE_IS_SAMPLE, time=0)
+    root = t.nodes.add_row(time=1.0)
+    k = 0
+    total = max(1, sum(counts[i % len(counts)] for i in range(n)))
+    for i in range(n):
+        t.edges.add_row(0, span, root, i)
+        for _ in range(counts[i % len(counts)]):
+            s_ = t.sites.add_row(position=span * (k + 0.5) / total, ancestral_state="0")
+            t.mutations.add_row(site=s_, node=i, derived_state="1")
+            k += 1
+    t.sort()
+    return t.tree_sequence()
+
+
+@st.composite
+def star_case(draw, tier):
+    n = draw(st.integers(60, 160))
+    counts = draw(st.lists(st.integers(0, 3), min_size=1, max_size=5))
+    if sum(counts) == 0:
+        counts[0] = 1
+    ts = big_star(n, counts, draw(st.sampled_from([1.0, 1e3])))
+    cap = draw(st.sampled_from([1.001, 1.01, 1.1]))
+    nops = draw(st.integers(1, 4))
+    ops = [["iterate", cap, draw(st.sampled_from([0.05, 0.1, 0.5])), draw(st.booleans())] for _ in range(nops)]
+    return dict(mode="ops", ts=ts, mu=10.0 ** draw(st.integers(-3, 0)), phased=True, ops=ops, star=True)
+
+
 @st.composite
 def strategy_(draw, tier):
+    if draw(st.integers(0, 7)) == 0:
+        return draw(star_case(tier))
     contemp = draw(st.integers(0, 3)) > 0
     ts = draw(G.general_ts(tier=tier, contemporaneous=contemp, single_root=draw(st.booleans()), min_muts=1,
                            missing=False))
@@ -172,6 +207,8 @@ def run_op(fit, op, max_shape, min_step, regularise):
 
 def check(case, ctx):
     ts = case["ts"]
+    if case.get("star"):
+        ctx.label("big_star_tiny_cap")
     ctx.label("mode=" + case["mode"], "phased" if case["phased"] else "unphased",
               "contemporaneous" if G.is_contemporaneous(ts) else "historical_or_internal")
     if case["mode"] == "date":
